@@ -36,6 +36,28 @@ Theorem C06_table_matches_rfc : forall a, In a catalogue_attrs -> handling true 
 Proof. exact table_matches_rfc. Qed.
 Print Assumptions C06_table_matches_rfc.
 
+(* attribute discard takes the malformed attribute off the route and nothing else: an attribute stays unless ITS OWN
+   decoding error is of the discard class, wherever it stands in the UPDATE; with the class table of the current source
+   only ATOMIC_AGGREGATE and AGGREGATOR are ever removed *)
+Theorem C06_kept_exactly : forall fs attrs a,
+  In a (kept_attrs fs attrs) <-> In a attrs /\ own_error fs a <> Some CDiscard.
+Proof. exact kept_exactly. Qed.
+Print Assumptions C06_kept_exactly.
+
+Theorem C06_wellformed_attribute_stays : forall fs attrs a, In a attrs -> own_error fs a = None -> In a (kept_attrs fs attrs).
+Proof. exact kept_wellformed. Qed.
+Print Assumptions C06_wellformed_attribute_stays.
+
+Theorem C06_kept_independent_of_position : forall fs l1 l2, kept_attrs fs (l1 ++ l2)%list = (kept_attrs fs l1 ++ kept_attrs fs l2)%list.
+Proof. exact kept_app. Qed.
+Print Assumptions C06_kept_independent_of_position.
+
+Theorem C06_only_aggregate_attributes_are_discarded : forall fs attrs a,
+  In a catalogue_attrs -> In a attrs -> ~ In a (kept_attrs fs attrs) ->
+  a = "BGP_ATTR_TYPE_ATOMIC_AGGREGATE" \/ a = "BGP_ATTR_TYPE_AGGREGATOR".
+Proof. exact only_aggregate_attributes_are_discarded. Qed.
+Print Assumptions C06_only_aggregate_attributes_are_discarded.
+
 Theorem C06_shape_of_generated_table : handling_shape = "ok".
 Proof. reflexivity. Qed.
 
@@ -45,3 +67,9 @@ Example C06_nonvacuous :
   react true [FAttrMalformed "BGP_ATTR_TYPE_ORIGIN"; FNlri] = CReset /\
   react false [FAttrMalformed "BGP_ATTR_TYPE_ATOMIC_AGGREGATE"] = CReset.
 Proof. vm_compute. auto. Qed.
+
+Example C06_kept_nonvacuous :
+  kept_attrs [FAttrMalformed "BGP_ATTR_TYPE_AGGREGATOR"]
+    ["BGP_ATTR_TYPE_ORIGIN"; "BGP_ATTR_TYPE_AGGREGATOR"; "BGP_ATTR_TYPE_COMMUNITIES"; "BGP_ATTR_TYPE_MULTI_EXIT_DISC"]
+  = ["BGP_ATTR_TYPE_ORIGIN"; "BGP_ATTR_TYPE_COMMUNITIES"; "BGP_ATTR_TYPE_MULTI_EXIT_DISC"].
+Proof. vm_compute. reflexivity. Qed.
